@@ -5,6 +5,7 @@ import Proofs.C11Stream
 import Proofs.C11Visits
 import Proofs.C11OpLog
 import Proofs.C11Depth
+import Proofs.C11Special
 /-!
 # C11 — input bookkeeping: NR, FNR, FILENAME, operands, getline, ranges, next, exit
 
@@ -304,6 +305,69 @@ theorem exit_status (fuel : Nat) (p : Prog) (s : St) (h0 : Initial s) :
   have hinv : StatusInv s := by unfold StatusInv; rw [hst, hout]; rfl
   exact run_preserves statusInv_stable fuel p s hinv
 
+/-! ## special variables written by operands, `-v` and the program: FILENAME never steers the input, FS is fixed per record -/
+
+/-- the operand walk has not started; FILENAME, FS and everything AWK-visible may hold anything (`-v FILENAME=…`, BEGIN) -/
+def FreshWalk (s : St) : Prop :=
+  s.idx = 1 ∧ s.cur = none ∧ s.hadFiles = false ∧ s.takes = [] ∧ s.walkEdited = false
+
+/-- **filename_never_steers_input.** For every program — including programs that assign FILENAME anywhere (`Op.setFilename`) —
+every operand list — including `FILENAME=x` operands — every initial FILENAME (`-v`), world and fuel: as long as the program has
+not assigned ARGV / ARGC nor executed nextfile, the records taken from the main input (with their FNR; by the main loop, getline
+and getline var in any interleaving) followed by what is pending are the declarative stream of the operand list. Which inputs
+are read, in which order, and whether stdin is the default input depends on the operand list only. -/
+theorem filename_never_steers_input (fuel : Nat) (p : Prog) (s : St) (h0 : FreshWalk s) :
+    (run fuel p s).2.walkEdited = false →
+    (takes2 (run fuel p s).2).reverse ++ pending2 (run fuel p s).2 =
+      (streamSpec s.fs (operandsFrom s.argv 1 (s.argc - 1)) false s.stdin).map dropName := by
+  obtain ⟨hidx, hcur, hhad, htakes, -⟩ := h0
+  have hinv : RecInv ((streamSpec s.fs (operandsFrom s.argv 1 (s.argc - 1)) false s.stdin).map dropName) s := by
+    intro _
+    simp [takes2, pending2, pending, remaining, hidx, hcur, hhad, htakes]
+  exact run_preserves (recInv_stable _) fuel p s hinv
+
+/-- … in particular, when no operand names an input (only assignments — `FILENAME=x` among them — and empty strings, or no
+operand at all), that stream is stdin: the fallback is decided by the operand list, not by FILENAME being unset. -/
+theorem stdin_is_default_input (fuel : Nat) (p : Prog) (s : St) (h0 : FreshWalk s)
+    (hops : ∀ o ∈ operandsFrom s.argv 1 (s.argc - 1), namesNoInput o = true) :
+    (run fuel p s).2.walkEdited = false →
+    (takes2 (run fuel p s).2).reverse ++ pending2 (run fuel p s).2 = (numbered [45] 0 s.stdin).map dropName := by
+  intro he
+  rw [filename_never_steers_input fuel p s h0 he, streamSpec_no_input s.fs _ s.stdin hops]
+
+/-- **a record is split with the FS in force when it is set** (`savedFieldSep`): by the main loop and by plain getline … -/
+theorem record_split_with_fs_at_read_time (s : St) (r : Rec) :
+    (s.beginRecord r).nf = nfWith s.fsep r ∧ (s.setLine r).nf = nfWith s.fsep r := ⟨rfl, rfl⟩
+
+/-- … and an assignment to FS afterwards — by the program, or by a `FS=…` operand — leaves `$0` and NF of the current record
+alone; `getline var` does not re-split either. -/
+theorem fs_assignment_keeps_record (s : St) (v : Bytes) :
+    (execOp (.setFs v) s).2.line = s.line ∧ (execOp (.setFs v) s).2.nf = s.nf ∧
+    (s.setVarByName fsVar v).line = s.line ∧ (s.setVarByName fsVar v).nf = s.nf ∧
+    (s.setVarByName fsVar v).fsep = v ∧ (execOp (.setFs v) s).2.fsep = v := by
+  refine ⟨rfl, rfl, ?_, ?_, ?_, rfl⟩ <;> simp [St.setVarByName, fsVar, fileNameVar, St.nf]
+
+/-- **looking for the next record never changes the current one**: whatever `nextLine` finds — a record (which the caller
+then installs), the end of the input, a missing file — and whatever `var=value` operands (FS, FILENAME, …) it applies on the
+way, `$0` and the FS saved with it, hence NF, are untouched. With `mainLoop` ending at `.eof` this is: END's `$0` and NF are
+those of the last record, also when assignment operands follow the last file. -/
+theorem next_line_keeps_record (s : St) : (nextLine s).2.line = s.line ∧ (nextLine s).2.nf = s.nf := by
+  obtain ⟨-, h2, h3⟩ := nextLine_frame2 s
+  exact ⟨h3, by unfold St.nf; rw [h2, h3]⟩
+
+theorem end_sees_last_record (fuel : Nat) (rules : List Rule) (fl : List Bool) (s s1 : St) (hn : nextLine s = (.eof, s1)) :
+    mainLoop (fuel + 1) rules fl s = (.normal, s1) ∧ s1.line = s.line ∧ s1.nf = s.nf := by
+  have h := next_line_keeps_record s
+  rw [hn] at h
+  exact ⟨by simp [mainLoop, hn], h.1, h.2⟩
+
+theorem getline_var_keeps_nf (s : St) (v : Nat) : (doGetlineVar s v).nf = s.nf := by
+  have h := next_line_keeps_record s
+  unfold doGetlineVar
+  rcases hn : nextLine s with ⟨t, s1⟩
+  rw [hn] at h
+  cases t <;> exact h.2
+
 /-! ## non-vacuity -/
 
 private def w0 : St :=
@@ -361,6 +425,31 @@ example : ((run 100 ⟨[], [⟨.pred (fun v => if v.nr == 2 || v.nr == 3 then .n
       w0).2.out.reverse.map fun
       | .emit tag nr _ _ _ _ _ _ => (tag, nr)
       | _ => (0, 0)) = [(1, 1), (1, 4), (1, 5), (9, 5)] := by
+  decide +kernel
+
+/-- `FILENAME=zz` as the only operand, FILENAME also assigned in BEGIN: stdin is still read (two records, FNR 1 and 2), under
+the name `-` -/
+private def w1 : St :=
+  { fs := [], stdin := [[120], [121, 58, 122]], argv := [[], [70, 73, 76, 69, 78, 65, 77, 69, 61, 122, 122]], argc := 2, varNames := [],
+    filename := [112, 114, 101] }
+
+example : FreshWalk w1 := ⟨rfl, rfl, rfl, rfl, rfl⟩
+example : ∀ o ∈ operandsFrom w1.argv 1 (w1.argc - 1), namesNoInput o = true := by decide +kernel
+
+example : ((run 100 ⟨[.setFilename [113], .emit 8], [⟨.always, some [.emit 0]⟩], some [.emit 9]⟩ w1).2.out.reverse.map fun
+      | .emit tag nr fnr fn _ _ _ _ => (tag, nr, fnr, fn)
+      | _ => (0, 0, 0, [])) =
+    [(8, 0, 0, [113]), (0, 1, 1, [45]), (0, 2, 2, [45]), (9, 2, 2, [45])] := by
+  decide +kernel
+
+/-- `FS=:` between two readings of stdin's worth of records: the record read before keeps NF 1, the one after has NF 2;
+END (after a trailing `FS=y`) still sees NF 2 -/
+private def w2 : St :=
+  { fs := [([107], [[121, 58, 122]])], stdin := [], argv := [[], [107], [70, 83, 61, 58], [107], [70, 83, 61, 121]], argc := 5, varNames := [] }
+
+example : ((run 100 ⟨[], [⟨.always, some [.emit 0]⟩], some [.emit 9]⟩ w2).2.out.reverse.map fun
+      | .emit tag nr _ _ _ nf _ _ => (tag, nr, nf)
+      | _ => (0, 0, 0)) = [(0, 1, 1), (0, 2, 2), (9, 2, 2)] := by
   decide +kernel
 
 /-- a range that opens and closes on the same record, and one that stays open -/
